@@ -52,8 +52,8 @@ PROPS["C20"] = dict(
     technique="Coq proofs (conservation invariant by induction over reads, closed form of ReadFull over chunked transports) on a model of ProtocolDetectConn / detect; vm_compute correspondence through the public pa API",
     level_text="Theorems for every transport segmentation and every sequence of read-buffer sizes (routing by byte 1, transparency = nothing lost/duplicated/"
                "reordered, short stream is an error, progress) proved in Coq; the model and a stream-level predicate are evaluated in Coq on what "
-               "pa.NewListener / ProtocolDetectConn did for all 256 version bytes, segmentations, early disconnects and configurations; real TLCP and TLS "
-               "handshakes are run through the adapter and directly.",
+               "pa.NewListener / ProtocolDetectConn did for all 256 version bytes, segmentations, early disconnects and configurations (first Read with a non-empty or an empty buffer); real TLCP and TLS "
+               "handshakes are run through the adapter and directly, also forced by a zero-length Read.",
     level_note="Trusted: Coq kernel + vm_compute; hand-written model tied by correspondence; crypto/tls and tlcp.Server behind the adapter are exercised, not modelled; "
                "the mutex in ProtocolSwitchServerConn belongs to C13.",
     code_names={1: "short-stream-not-an-error", 2: "error-on-complete-header", 3: "bytes-lost-or-altered", 4: "unexpected-read-error",
@@ -64,11 +64,11 @@ PROPS["C20"] = dict(
 
 PROPS["C18"] = dict(
     technique="Coq proofs of injectivity of the cookie input encoding and of the covered-field encoding, binding under an explicit HMAC-collision-freeness premise, loop invariant of the cookie exchange; correspondence recomputes every cookie with a Gallina SM3/HMAC",
-    level_text="Theorems (encoding injective, binding to address/fields/secret, only HelloVerifyRequests and no key operation before a valid cookie, "
-               "no amplification) proved in Coq; every cookie the Go code issues is recomputed bit for bit by an independent SM3/HMAC-SM3 written in "
+    level_text="Theorems (encoding injective, binding to address/fields/secret, an unconfigured (nil or empty) secret is the connection's own draw and no other key's cookie is accepted, "
+               "only HelloVerifyRequests and no key operation before a valid cookie, no amplification) proved in Coq; every cookie the Go code issues is recomputed bit for bit by an independent SM3/HMAC-SM3 written in "
                "Gallina from the standard; a real server is fed scripted ClientHello sequences under virtual time with instrumented private keys.",
     level_note="Trusted: Coq kernel + vm_compute; HMAC idealised as collision-free (explicit premise of C18_binding); hand-written model tied by correspondence; "
-               "the default per-connection random secret is observed only through differing cookies.",
+               "the default per-connection random secret is the first 32 bytes the connection draws from Config.Rand, which the harness supplies (a known stream), so its cookies are recomputed too.",
     code_names={1: "cookie-bytes-differ-from-HMAC-SM3-of-unambiguous-encoding", 2: "cookie-accepted-for-other-address-fields-secret-or-bytes",
                 3: "valid-cookie-refused", 4: "covered-field-encoding-differs", 10: "not-exactly-one-response-before-valid-cookie",
                 11: "response-before-valid-cookie-is-not-HelloVerifyRequest", 12: "HelloVerifyRequest-larger-than-request",
@@ -96,7 +96,8 @@ PROPS["C06"] = dict(
     level_text="Theorems for every write-size list, transport segmentation and read-buffer list (stream identity, 16384-byte plaintext and 16384+2048 ciphertext bounds, "
                "ramp closed form) proved in Coq; the model must predict the exact sequence of record lengths on the wire (ramp, 128 KiB boost, both cipher modes) "
                "and of Read results of real TLCP connections; a property-level predicate (exact delivery, full write lengths, EOF after all data, size limits) is "
-               "evaluated on the implementation's output.",
+               "evaluated on the implementation's output. Transports that hand over the last bytes together with io.EOF, and the request / CloseWrite / read-the-answer pattern on a "
+               "transport that honours deadlines, are part of the corpus and of the random stream.",
     level_note="Trusted: Coq kernel + vm_compute; hand-written model tied by correspondence; record protection is abstract here (C04 checks it against the standard, C05 its failure behaviour).",
     code_names={1: "stream-not-delivered-exactly", 2: "write-did-not-report-full-length", 3: "no-clean-eof-after-close", 4: "ciphertext-above-16384+2048",
                 5: "plaintext-above-16384", 6: "bytes-lost-or-duplicated", "hang": "hang"},
@@ -137,7 +138,9 @@ PROPS["C01"] = dict(
     technique="Coq theorems on an executable model of the negotiation (offer, server choice, ALPN, versions, client-auth policy) against a declarative compatibility predicate + correspondence on real client/server pairs of both stacks",
     level_text="Theorems for every pair of configurations (suite = first common in the documented priority order; success iff compatible; ALPN specification; offer soundness) proved in Coq; "
                "generated configuration pairs (direct or cloned) are run as real handshakes of both stacks with data exchanged both ways, and the model as well as the declarative "
-               "predicate are evaluated on the observed results of both sides (success/failure on both, suite, ALPN, version, resumption flag, peer certificates each side reports).",
+               "predicate are evaluated on the observed results of both sides (success/failure on both, suite, ALPN, version, resumption flag, peer certificates each side reports). "
+               "Key pairs come from the Certificates list, from the Get* callbacks or one from each; a pair with session caches on both sides connects a second time and the (resumed) "
+               "connection is held to the same clauses.",
     level_note="Trusted: Coq kernel + vm_compute; X.509 verdicts (server chain under the client's roots/name, client chain under the policy's options, issuer acceptability) are oracle inputs "
                "computed by the harness; Clone is checked by running through it (a dropped field shows as a disagreement).",
     code_names={1: "one-side-succeeded-other-failed", 2: "success-differs-from-compatibility", 3: "suite-not-first-common-in-priority-order", 4: "sides-report-different-parameters",
@@ -317,7 +320,7 @@ PROPS["C12"] = dict(
     level_text="Theorems over every history of Read / Write / CloseWrite / Close / Handshake / HandshakeContext calls interleaved with arriving records of every kind, the end of the "
                "transport on or inside a record and the peer going away (end-of-stream only after all data and only after close_notify or a clean end; unexpected-EOF only after a truncated "
                "record; an honest stream's end is reported after every byte by Reads with any non-zero buffers; errors stay reported after Close, on each half and across the halves (any error returned by Read but end-of-stream stops Write, any error returned by Write but shutdown stops Read), after a failed or cancelled handshake, after "
-               "CloseWrite; early application data never accepted; cancellation returns the context error and closes the transport) proved in Coq; the model must predict the result class, the bytes delivered, the alerts and application data sent, the transport-closed "
+               "CloseWrite; early application data never accepted; cancellation returns the context error and closes the transport) proved in Coq; a handshake that fails because the read deadline expired is a failed handshake of the plan (it stays failed after the deadline is cleared); the model must predict the result class, the bytes delivered, the alerts and application data sent, the transport-closed "
                "and handshake-complete flags of every call of generated histories run against real connections (puppet peer; real peer with each end's arrivals taken from the other end's output), and a property-level predicate that does not use the model's step function is "
                "evaluated on the implementation's own results.",
     level_note="Trusted: Coq kernel + vm_compute; hand-written model tied by correspondence; the handshake protocol itself is a parameter of the model (C08/C02/C07 analyse it); calls are sequential "
